@@ -1141,6 +1141,12 @@ type encResult struct {
 	lines          []string
 	err            error
 	assume         []string
+	// calling convention of the generated Lean function (used by senders.go): one entry per Go receiver/parameter,
+	// "Sl" | "Bytes" | "Bool" | "UInt8" | "Nat" | "struct:<field kinds>"; opt = result is Option Sl; ownMem = no (m : Mem) argument
+	kinds   []string
+	opt     bool
+	ownMem  bool
+	results int
 }
 
 func translateEncoder(p *packages.Package, fd *ast.FuncDecl, name string, addrVars map[string]string, callees map[string]bool) encResult {
@@ -1162,18 +1168,23 @@ func translateEncoder(p *packages.Package, fd *ast.FuncDecl, name string, addrVa
 		switch {
 		case isByteSlice(ty) && (isRecv || written[v]):
 			t.env[v] = &evar{kSl, ln}
+			res.kinds = append(res.kinds, "Sl")
 			params = append(params, fmt.Sprintf("(%s : Sl)", ln))
 		case isByteSlice(ty) || isNetipAddr(ty):
 			t.env[v] = &evar{kBytes, ln}
+			res.kinds = append(res.kinds, "Bytes")
 			params = append(params, fmt.Sprintf("(%s : Bytes)", ln))
 		case basicKind(ty) == types.Bool:
 			t.env[v] = &evar{kBool, ln}
+			res.kinds = append(res.kinds, "Bool")
 			params = append(params, fmt.Sprintf("(%s : Bool)", ln))
 		case basicKind(ty) == types.Uint8:
 			t.env[v] = &evar{kU8, ln}
+			res.kinds = append(res.kinds, "UInt8")
 			params = append(params, fmt.Sprintf("(%s : UInt8)", ln))
 		case basicKind(ty) == types.Uint16 || basicKind(ty) == types.Int:
 			t.env[v] = &evar{kNat, ln}
+			res.kinds = append(res.kinds, "Nat")
 			params = append(params, fmt.Sprintf("(%s : Nat)", ln))
 		default:
 			st, ok := ty.Underlying().(*types.Struct)
@@ -1181,7 +1192,10 @@ func translateEncoder(p *packages.Package, fd *ast.FuncDecl, name string, addrVa
 				return fail("parameter %s of type %v", v.Name(), ty)
 			}
 			t.env[v] = &evar{kStruct, ln}
+			var fk []string
+			defer func() { res.kinds = append(res.kinds, "struct:"+strings.Join(fk, ",")) }()
 			for i := 0; i < st.NumFields(); i++ {
+				fk = append(fk, st.Field(i).Name())
 				f := st.Field(i)
 				switch {
 				case isByteSlice(f.Type()) || isNetipAddr(f.Type()):
@@ -1254,6 +1268,7 @@ func translateEncoder(p *packages.Package, fd *ast.FuncDecl, name string, addrVa
 	if t.nilRet {
 		rt = "Option Sl"
 	}
+	res.opt, res.ownMem, res.results = t.nilRet, t.ownMem, t.results
 	res.sig = fmt.Sprintf("def %s %s : Outcome (Mem × %s) := do", name, strings.Join(params, " "), rt)
 	res.lines = t.lines
 	for a := range t.assume {
